@@ -19,11 +19,18 @@ func Copy(src, dest string) error {
 // CopyDirectory copy a directory and sub-direcotories and files on local files system.
 func CopyDirectory(src, dest string) error {
 	return filepath.Walk(src, func(path string, info os.FileInfo, err error) error {
-		subPath := path + "/" + info.Name()
-		if info.IsDir() {
-			return MkdirAll(subPath, filesystem.DefaultUnixDirMode)
+		if err != nil {
+			// the source (or a node below it) can not be read
+			return err
 		}
-		return CopyFile(src+subPath, dest+subPath)
+		subPath, err := filepath.Rel(src, path)
+		if err != nil {
+			return err
+		}
+		if info.IsDir() {
+			return MkdirAll(filepath.Join(dest, subPath), filesystem.DefaultUnixDirMode)
+		}
+		return CopyFile(path, filepath.Join(dest, subPath))
 	})
 }
 
